@@ -55,12 +55,17 @@ TYPE_TO_JSON_TYPE = {
 }
 
 
+def _found_type(cls: type) -> str:
+    # data can be of any class: subclasses of JSON types, tuple, bytes, etc.
+    for base in cls.__mro__:
+        if base in TYPE_TO_JSON_TYPE:
+            return str(TYPE_TO_JSON_TYPE[base])
+    return cls.__name__
+
+
 def bad_type(data: Any, *expected: type) -> ValidationError:
-    msgs = [
-        f"expected type {JsonType.from_type(tp)},"
-        f" found {JsonType.from_type(data.__class__)}"
-        for tp in expected
-    ]
+    found = _found_type(data.__class__)
+    msgs = [f"expected type {JsonType.from_type(tp)}, found {found}" for tp in expected]
     return ValidationError(msgs)
 
 
